@@ -52,7 +52,7 @@ func init() {
 	l1Assume := []string{"outer tx signatures are not verified; the signer is the declared signer field", "single block proposer", "the L2 side is represented by fabricated withdrawal sets committed by the independent prover"}
 
 	c01 := &l1Profile{Prop: "C01", Reimport: 2, Blocks: [2]int{10, 50}, MaxTx: 5, Periods: []time.Duration{time.Second, 10 * time.Second, time.Hour}, Crash: 5, DepFault: 6, GasAbort: 4, Byz: 25, RegFee: true,
-		W:       map[string]int{"create": 8, "deposit": 30, "send": 10, "propose": 14, "delete": 4, "claim": 30, "updProposer": 2, "updChallenger": 2, "batchInfo": 1, "params": 1, "multi": 8},
+		W:       map[string]int{"claimburst": 8, "create": 8, "deposit": 30, "send": 10, "propose": 14, "delete": 4, "claim": 30, "updProposer": 2, "updChallenger": 2, "batchInfo": 1, "params": 1, "multi": 8},
 		NonTriv: func(w *l1World) bool { return w.succ["deposit"] >= 1 && w.succ["claim"] >= 1 && len(w.m.Bridges) >= 2 }}
 	core.Register(&core.Scenario{ID: "C01", Level: "exploration", Run: runL1(c01), Components: l1Components, Assumptions: l1Assume,
 		Rule:      "seeded multi-bridge histories (create, deposit, propose, delete, claim incl. cross-bridge replays, role updates, third-party sends to escrows) with crashes, dependency faults on the bank/community-pool seams and out-of-gas aborts; after every block the bank's complete balance table and every bridge's exported state are compared with a ledger model; non-trivial = >=2 bridges, >=1 successful deposit and >=1 successful claim",
@@ -60,7 +60,7 @@ func init() {
 		RequiredProbes: []string{"reject.claim.escrow-underfunded", "claim.perturbed-rejected"}})
 
 	c02 := &l1Profile{Prop: "C02", Reimport: 2, Blocks: [2]int{12, 60}, MaxTx: 6, Periods: []time.Duration{time.Second, 2 * time.Second, 10 * time.Second}, Crash: 10, Byz: 8,
-		W:       map[string]int{"create": 4, "deposit": 14, "propose": 16, "delete": 8, "claim": 60, "updProposer": 1, "multi": 5, "send": 4},
+		W:       map[string]int{"claimburst": 12, "create": 4, "deposit": 14, "propose": 16, "delete": 8, "claim": 60, "updProposer": 1, "multi": 5, "send": 4},
 		NonTriv: func(w *l1World) bool { return w.succ["claim"] >= 2 }}
 	core.Register(&core.Scenario{ID: "C02", Level: "exploration", Run: runL1(c02), Components: l1Components, Assumptions: l1Assume,
 		Rule:      "seeded histories of propose / delete / re-propose (cumulative trees carrying earlier leaves) and claims of the same withdrawal by several submitters against every output that contains it, same block and across blocks, with crash between FinalizeBlock and Commit and block replay; oracle: per (bridge, withdrawal) at most one successful finalisation, Claimed query true exactly for paid withdrawals, ledger equality; non-trivial = >=2 successful claims",
